@@ -3,8 +3,8 @@
 From Coq Require Import List Bool NArith ZArith Permutation.
 From Coq.Strings Require Import Byte.
 Import ListNotations.
-From GA.Model Require Import Orf Translate.
-From GA.Proofs Require Import OrfProofs.
+From GA.Model Require Import Orf Translate Strand SW Phaser.
+From GA.Proofs Require Import OrfProofs PhaserProofs.
 
 (* the ORF reported by LongestORF is an open reading frame: ATG at its start, the first in-frame stop
    codon at its end *)
@@ -33,12 +33,29 @@ Theorem C16_frame_coordinates : forall code phase k s,
 Proof. exact phased_codons_translate. Qed.
 Print Assumptions C16_frame_coordinates.
 
+(* the code model of the amino-acid mode (alignAgainstRefsAA: frames and strands tried in order, anchored
+   Smith-Waterman, strict improvement, optional cut of the end) reports, whatever alignment wins, the
+   position of the kept candidate, the nucleotides of that strand from that position, the same codons,
+   and amino acids that are exactly the translation of those codons *)
+Theorem C16_phaser_model_in_frame :
+  forall (gc : Z) (code : code_table) (rev_too cutend : bool) (orfsaa : list (list byte)) (s : list byte) (r : pres) (b : best),
+  genetic_code gc = Some code ->
+  fold_try (fun (op : list byte * Z) c => try_aa gc cutend s (fst (revcomp_seq s)) (fst op) (snd op) c)
+           (list_prod orfsaa (if rev_too then [0; 1; 2; 3; 4; 5] else [0; 1; 2])%Z) None = Some (Some b) ->
+  phase_aa gc rev_too cutend orfsaa s = ORes r ->
+  (0 <= b_startaa b <= b_endaa b)%Z ->
+  (b_seq b = s \/ b_seq b = fst (revcomp_seq s)) /\
+  p_pos r = b_start b /\ p_nt r = sub (b_seq b) (b_start b) (b_end b) /\ p_codon r = p_nt r /\
+  translate_from code (p_codon r) = p_aa r.
+Proof. exact phase_aa_in_frame. Qed.
+Print Assumptions C16_phaser_model_in_frame.
+
 (* whatever the order in which the workers take the sequences, the collection of results is the same *)
 Theorem C16_results_independent_of_schedule : forall (A B : Type) (f : A -> B) (seqs order : list A),
   Permutation seqs order -> Permutation (map f seqs) (map f order).
 Proof. intros A B. exact (@pool_results_permutation A B). Qed.
 Print Assumptions C16_results_independent_of_schedule.
 
-(* Stated, not proved: the best-frame search (anchored Smith-Waterman over 3 or 6 translations) trims
-   a sequence holding the reference ORF verbatim at that ORF's start; channel closing and data-race
+(* Stated, not proved: the best-frame search trims a sequence holding the reference ORF verbatim at that
+   ORF's start (the search itself is modelled and compared exactly with the code on every case); channel closing and data-race
    freedom of the worker pool. These are judged per case by Corr/C16.v. *)
